@@ -1306,7 +1306,13 @@ fn run_program(rc: &mut RunCtx, kind: Kind, steps: &[Step], rng: &mut Rng) {
     ctx.obs_max("max_tag_count", nt as u64);
 
     // ---- queries against the set model ------------------------------------------
-    let idx_of = |v: &[(usize, &[u8; 16])]| -> Vec<usize> { v.iter().map(|(i, _)| *i).collect() };
+    // a query reports a SET of files: the order in which an implementation lists them is left open by the statement
+    // (manifest order, request order, priority order …); duplicates stay visible after sorting and do not equal the model
+    let idx_of = |v: &[(usize, &[u8; 16])]| -> Vec<usize> {
+        let mut x: Vec<usize> = v.iter().map(|(i, _)| *i).collect();
+        x.sort_unstable();
+        x
+    };
     let mut qcount = 0u64;
     let bad = |query: &str, got: Value, want: Value, extra: Value| {
         ctx.violation(
@@ -1397,7 +1403,8 @@ fn run_program(rc: &mut RunCtx, kind: Kind, steps: &[Step], rng: &mut Rng) {
                 if nt > 0 {
                     let t0 = rng.usize_below(nt);
                     let name = model.tags[t0].name.as_str();
-                    let any: Vec<usize> = m.get_files_for_any_tag(&[name, ghost]).into_iter().map(|(i, _)| i).collect();
+                    let mut any: Vec<usize> = m.get_files_for_any_tag(&[name, ghost]).into_iter().map(|(i, _)| i).collect();
+                    any.sort_unstable();
                     ok &= m.get_files_for_tags(&[name, ghost]).is_empty() && m.calculate_install_size(&[ghost, name]) == 0 && any == set_of(t0);
                 }
                 qcount += 5;
@@ -1463,9 +1470,9 @@ fn run_program(rc: &mut RunCtx, kind: Kind, steps: &[Step], rng: &mut Rng) {
                         want.sort_unstable();
                     }
                 }
-                let got: Vec<usize> = mm.get_files_for_tag(&name).into_iter().map(|(i, _)| i).collect();
+                let got: Vec<usize> = sorted(mm.get_files_for_tag(&name).into_iter().map(|(i, _)| i).collect());
                 let other = (t0 + 1) % nt;
-                let got_other: Vec<usize> = mm.get_files_for_tag(&model.tags[other].name).into_iter().map(|(i, _)| i).collect();
+                let got_other: Vec<usize> = sorted(mm.get_files_for_tag(&model.tags[other].name).into_iter().map(|(i, _)| i).collect());
                 qcount += 2;
                 if got != want || (other != t0 && got_other != set_of(other)) || mm.find_tag_mut("no-such-tag").is_some() {
                     bad("find_tag_mut+add_file/remove_file", json!(got), json!(want), json!({"tag": name, "file": i0}));
@@ -1482,7 +1489,7 @@ fn run_program(rc: &mut RunCtx, kind: Kind, steps: &[Step], rng: &mut Rng) {
             for (ext, rem) in [("bin", 0u32), ("BLP", 1), ("txt", 2)] {
                 let want: Vec<usize> = (0..n).filter(|&i| model.files[i].id % 3 == rem).collect();
                 let got: Vec<(usize, &[u8; 16])> = m.get_files_by_extension(ext).into_iter().map(|(i, e)| (i, e.content_key.as_bytes())).collect();
-                let got_glob: Vec<usize> = m.find_files(&format!("*.{ext}")).into_iter().map(|(i, _)| i).collect();
+                let got_glob: Vec<usize> = sorted(m.find_files(&format!("*.{ext}")).into_iter().map(|(i, _)| i).collect());
                 qcount += 2;
                 if idx_of(&got) != want || !keys_ok(&got) {
                     bad("get_files_by_extension", json!(idx_of(&got)), json!(want), json!({"extension": ext}));
@@ -1538,7 +1545,7 @@ fn run_program(rc: &mut RunCtx, kind: Kind, steps: &[Step], rng: &mut Rng) {
             for (a, ta) in model.tags.iter().enumerate() {
                 for (c, tc) in model.tags.iter().enumerate() {
                     if ta.ttype == TagType::Platform as u16 && tc.ttype == TagType::Architecture as u16 {
-                        let got: Vec<usize> = m.entries_for_platform(&ta.name, &tc.name).into_iter().map(|(i, _)| i).collect();
+                        let got: Vec<usize> = sorted(m.entries_for_platform(&ta.name, &tc.name).into_iter().map(|(i, _)| i).collect());
                         let want = all_of(&[a, c]);
                         qcount += 1;
                         rc.cnt.add("query.entries_for_platform", 1);
@@ -1565,7 +1572,7 @@ fn run_program(rc: &mut RunCtx, kind: Kind, steps: &[Step], rng: &mut Rng) {
                 }
             };
             for c in [PriorityCategory::Critical, PriorityCategory::Essential, PriorityCategory::High, PriorityCategory::Normal, PriorityCategory::Low] {
-                let got: Vec<usize> = m.entries_by_priority(c).into_iter().map(|(i, _)| i).collect();
+                let got: Vec<usize> = sorted(m.entries_by_priority(c).into_iter().map(|(i, _)| i).collect());
                 let want: Vec<usize> = (0..n).filter(|&i| cat(eff(i)) == c).collect();
                 qcount += 1;
                 if got != want {
@@ -1583,7 +1590,7 @@ fn run_program(rc: &mut RunCtx, kind: Kind, steps: &[Step], rng: &mut Rng) {
                 let a = rng.range(0, (i32::from(hi) - i32::from(lo)) as u64) as i32 + i32::from(lo);
                 let c = rng.range(0, (i32::from(hi) - i32::from(lo)) as u64) as i32 + i32::from(lo);
                 let (mn, mx) = (a.min(c), a.max(c));
-                let got: Vec<usize> = m.entries_by_priority_range(mn as i8, mx as i8).into_iter().map(|(i, _)| i).collect();
+                let got: Vec<usize> = sorted(m.entries_by_priority_range(mn as i8, mx as i8).into_iter().map(|(i, _)| i).collect());
                 let want: Vec<usize> = (0..n).filter(|&i| eff(i) >= mn && eff(i) <= mx).collect();
                 qcount += 1;
                 if got != want {
@@ -1751,8 +1758,8 @@ fn run_program(rc: &mut RunCtx, kind: Kind, steps: &[Step], rng: &mut Rng) {
             // a category is its documented priority range
             for c in PriorityCategory::all_ordered() {
                 let (lo, hi) = c.priority_range();
-                let a: Vec<usize> = m.entries_by_priority(c).into_iter().map(|(i, _)| i).collect();
-                let r: Vec<usize> = m.entries_by_priority_range(lo, hi).into_iter().map(|(i, _)| i).collect();
+                let a: Vec<usize> = sorted(m.entries_by_priority(c).into_iter().map(|(i, _)| i).collect());
+                let r: Vec<usize> = sorted(m.entries_by_priority_range(lo, hi).into_iter().map(|(i, _)| i).collect());
                 qcount += 1;
                 if a != r {
                     bad("entries_by_priority-vs-entries_by_priority_range(priority_range)", json!(a), json!(r), json!({"category": format!("{c}")}));
@@ -1938,6 +1945,12 @@ fn python_check(ctx: &Ctx, path: &std::path::Path) -> u64 {
             0
         }
     }
+}
+
+/// Index list of a query result as a set (order left open by the statement; duplicates stay visible).
+fn sorted(mut v: Vec<usize>) -> Vec<usize> {
+    v.sort_unstable();
+    v
 }
 
 fn main() {
